@@ -1,7 +1,7 @@
 (* L2: ONE queue WITH futures, abstract pool.  Model only - no proofs here.
    One step = one critical section on one mutex (class given by [step_label]) or one lock-free local segment (LNone).
-   All queue-state / drain-waker decisions go through the table parameters.  Hard-coded "facts" (plain assignments in the
-   Rust source, checked by a separate tool):
+   All queue-state / drain-waker decisions go through the table parameters ([ftables]).  Hard-coded "facts" (plain assignments in
+   the Rust source, to be checked against the source by the separate tool):
      F-a  schedule_job_desync / sync_drain / sync_background push_back           (FD1, FSDpush, FSBpush)
      F-b  requeue = push_front                                                   (FDRrequeue, FDQrequeue)
      F-c  dequeue pops the front                                                 (FDRdeq, FROdeq, FDQdeq)
@@ -13,13 +13,28 @@
      F-g  run_one_job_now keeps a Pending job in hand (no requeue) and re-polls it (FROpend, FROcheck)
      F-h  signal: result := Some unconditionally, take waker, call it outside the lock (FJob .. PSignal)
      F-i  poll: take result first; core lock nested inside result lock; waker stored for Wait and Panic   (FSFpoll)
-     F-j  DoubleWaker takes both and calls queue waker first                      (FWake (WDouble k))
+     F-j  DoubleWaker takes both and calls the queue waker first                  (FWake (WDouble k))
      F-k  WakeThread: core section, then unpark                                   (FWake (WThread c), FUnpark)
      F-l  drain does NOT call reschedule_queue when it returns                    (FDRpend, FDRfin)
-   PANICS: wherever the code would panic! (take of a Returned result, the Panic arms of the tables) the model's step is None:
-   the actor is stuck at that frame ([would_panic] below); the theorems show such states unreachable.
-   Wakers are called as NESTED FRAMES on the calling thread's stack ([FWake w] pushed on top), exactly as in the code; a wake
-   "from another thread" is a wake executed by the firing caller's actor and interleaves anywhere with the runner. *)
+     F-m  drain_queue queue-empty arm: fwaker := task waker BEFORE state := Idle   (FDQempty1, FDQempty2)
+     F-n  a fresh DrainWaker (NotWoken) per job poll in drain_queue               (FDQdeq)
+   MODELLING DECISIONS
+   * Wakers are called as NESTED FRAMES on the calling thread's stack ([FWake w] pushed on top), exactly as in the code; a wake
+     "from another thread" is a wake executed by the firing caller's actor and interleaves anywhere with the runner.
+   * PANICS: wherever the code would panic! (take of a Returned result, the Panic arms of the tables) the model's step is None:
+     the actor is stuck at that frame ([would_panic] below); the theorems show such states unreachable.
+   * Job polls are frames [FJob j w k]: j = job, w = context waker, k = who polls (drain / run_one_job_now / drain_queue f d) =
+     where the poll returns to.  [ret_ready] / [ret_pending] give the return points.
+   * A poll of a SchedulerFuture that is going to return Ready removes the caller's await / drop-loop continuation frame at the
+     step that takes the result ([pop_cont]); the lock-free return path has no steps of its own.
+   * An external event cell keeps EVERY waker registered with it until it is fired (stale wakers from earlier polls included; the
+     real oneshot keeps only the latest).  Events outside the configured range count as already fired.
+   * ABSTRACTED: the pool ([FPIdle] may take a schedule entry whenever insched > 0; L1 proves the hand-over); schedule_thread;
+     sync_background's wait (blocked until the job has been run; the steal path is L1's); private result mutex / condvar of sync.
+   * OMITTED: the signaller's Drop (Canceled) - a queued job is never dropped here; future_sync; try_sync; several queues;
+     nested operations; debug_assert!() critical sections (read-only core lock sections in debug builds have no model step).
+   * [step_label] of [FPIdle] is the schedule lock (the queue-core lock is nested inside it: next_to_run examines one entry per
+     step); [FSFpoll] is the result lock (core nested). *)
 From stdpp Require Import list numbers option.
 From RecordUpdate Require Import RecordUpdate.
 From L0 Require Export Types.
